@@ -45,7 +45,59 @@ Definition erase (S : schema) (F : features) : schema :=
      query := query S;
      mutation := erase_root alive (mutation S);
      subscription := erase_root alive (subscription S);
-     directives := directives S |}.
+     directives := directives S;
+     additional := filter alive (additional S) |}.
+
+(** ** Physical erasure as a developer would perform it: delete the gated elements from the
+    SchemaDefinition and call schema.New again.  schema.New registers exactly the types it reaches
+    from the directives, the root types and AdditionalTypes (schema/inspect.go), so a type that
+    itself requires nothing but was referenced only by deleted elements is no longer registered. *)
+Definition type_refs (t : named_type) : list name :=
+  match t with
+  | NObject fs ifs _ => flat_map (fun nf => field_handles (snd nf)) fs ++ ifs
+  | NInterface fs _ => flat_map (fun nf => field_handles (snd nf)) fs
+  | NInput fs _ => map (fun a => base (snd a)) fs
+  | NUnion ms _ => ms
+  | _ => []
+  end.
+
+Definition opt_list {A} (o : option A) : list A := match o with Some x => [x] | None => [] end.
+
+Definition inspect_roots (S : schema) : list name :=
+  flat_map (fun d => map (fun a => base (snd a)) (snd d)) (directives S) ++
+  query S :: opt_list (mutation S) ++ opt_list (subscription S) ++ additional S.
+
+Fixpoint add_new (seen : list name) (l : list name) : list name :=
+  match l with
+  | [] => seen
+  | x :: r => if mem x seen then add_new seen r else add_new (seen ++ [x]) r
+  end.
+
+Fixpoint reach (S : schema) (fuel : nat) (seen : list name) : list name :=
+  match fuel with
+  | O => seen
+  | Datatypes.S n =>
+      reach S n (add_new seen (flat_map (fun h => match lookup S h with Some t => type_refs t | None => [] end) seen))
+  end.
+
+(** the names schema.New registers for a definition with these roots *)
+Definition reachable (S : schema) : list name :=
+  reach S (List.length (types S)) (add_new [] (inspect_roots S)).
+
+Definition restrict (S : schema) (keep : list name) : schema :=
+  {| types := filter (fun nt => mem (fst nt) keep) (types S);
+     query := query S; mutation := mutation S; subscription := subscription S;
+     directives := directives S; additional := additional S |}.
+
+Definition erase_physical (S : schema) (F : features) : schema :=
+  restrict (erase S F) (reachable (erase S F)).
+
+(** the types that need nothing the request lacks, but that only deleted elements referred to *)
+Definition orphaned (S : schema) (F : features) : list name :=
+  filter (fun n => negb (mem n (reachable (erase S F)))) (map fst (types (erase S F))).
+
+(** exclusion of the known finding [orphaned-type-stays-visible] *)
+Definition excl_orphaned_type (S : schema) (F : features) : bool := negb (is_nil (orphaned S F)).
 
 (** ** The property for one consumer *)
 Definition indistinguishable {A} (S : schema) (F G : features) (p : prog A) : Prop :=
